@@ -322,9 +322,11 @@ theorem csiDispatch_no_draw (c : Nat) (ps : List Nat) (p : Bool) : ∀ x ∈ csi
 
 theorem oscFinish_no_draw (code : Nat) (param : List Nat) : ∀ x ∈ oscFinish code param, Call.isDraw x = false := by
   unfold oscFinish
-  simp only [List.mem_append]
   intro x hx
-  rcases hx with hx | hx <;> (split at hx <;> simp_all [Call.isDraw])
+  split at hx
+  · simp only [List.mem_append] at hx
+    rcases hx with hx | hx <;> (split at hx <;> simp_all [Call.isDraw])
+  · simp at hx
 
 /-- While a sequence is in progress no character is delivered as text, except CAN/SUB aborting a CSI
     (handed to draw(), where they are invisible). -/
